@@ -52,6 +52,76 @@ Theorem C03_setter_clear_part : forall ps n f c file k,
   if (k <? n)%nat then conc (setp ps k []) n (N.ldiff f (N.shiftl 1 (N.of_nat k))) c else conc ps n f c.
 Proof. exact setter_clear_part. Qed.
 
+(* the same setters when nothing follows the part: the part exists and is the last text of the URL (url_setter
+   truncates the string, zeroes the later offsets and rewrites the part in place) or it was never written
+   (find_last_part, fill_parts_offset) *)
+Theorem C03_setter_write_port_query_fragment : forall ps n f c file k v,
+  PW ps n -> (6 <= n)%nat -> (k = P_PORT \/ k = P_QUERY \/ k = P_FRAGMENT) ->
+  (forall j, (k < j)%nat -> nth j ps [] = []) ->
+  let s1 := run true (init_sst (conc ps n f c) file) [OStartPart k; OAppend v; OSavePart] in
+  s_r s1 = conc (setp ps k (sepc k ++ v)) (S k) f c /\ s_last s1 = k.
+Proof. exact setter_write_simple. Qed.
+
+(* whichever of the three ways is taken: up to the freedom the property grants for the offsets of trailing unset
+   parts (norm_tail: a 0 repeats the previous offset - the normal form the correspondence check compares) *)
+Theorem C03_setter_port_query_fragment : forall ps n f c file k v,
+  PW ps n -> (6 <= n)%nat -> (k = P_PORT \/ k = P_QUERY \/ k = P_FRAGMENT) -> (k = P_PORT -> v <> []) ->
+  norm_tail (s_r (run true (init_sst (conc ps n f c) file) [OStartPart k; OAppend v; OSavePart])) =
+  conc (setp ps k (sepc k ++ v)) 11 f c.
+Proof. exact setter_simple_any. Qed.
+
+(* username / password: the "@" rules of url_setter::save_part ("@" appears with the first credential, disappears
+   with the last, a lone ":" is dropped) *)
+Theorem C03_setter_username_pieces : forall ps n f c file v,
+  PW ps n -> (6 <= n)%nat -> nth P_HOST ps [] <> [] ->
+  let s1 := run true (init_sst (conc ps n f c) file) [OStartPart P_USERNAME; OAppend v; OSavePart] in
+  s_r s1 = conc (username_pieces ps v) n f c /\ s_strp s1 = [].
+Proof. exact setter_username. Qed.
+
+Theorem C03_setter_password_pieces : forall ps n f c file v,
+  PW ps n -> (6 <= n)%nat -> nth P_HOST ps [] <> [] ->
+  let s1 := run true (init_sst (conc ps n f c) file) [OStartPart P_PASSWORD; OAppend v; OSavePart] in
+  s_r s1 = conc (password_pieces ps v) n f c /\ s_strp s1 = [].
+Proof. exact setter_password. Qed.
+
+(* ---- record level: the operation sequence a setter performs, run on the representation [repr_of u] of a record
+   (Impl/Repr.v; compared with the real objects on every state line of every stream), gives the representation of
+   the record the Standard's setter produces ---- *)
+
+(* hash: fragment state with state override = start_part(FRAGMENT), value, save_part, set_flag(FRAGMENT_FLAG) *)
+Theorem C03_hash_setter_repr : forall u file f, scheme u <> [] ->
+  norm_tail (s_r (run true (init_sst (repr_of u) file) [OStartPart P_FRAGMENT; OAppend f; OSavePart; OSetFlag 1024])) =
+  repr_of (set_fragment u (Some f)).
+Proof. exact hash_setter_repr. Qed.
+
+Theorem C03_search_setter_repr : forall u file q, scheme u <> [] ->
+  norm_tail (s_r (run true (init_sst (repr_of u) file) [OStartPart P_QUERY; OAppend q; OSavePart; OSetFlag 512])) =
+  repr_of (set_query u (Some q)).
+Proof. exact search_setter_repr. Qed.
+
+Theorem C03_port_setter_repr : forall u file p, scheme u <> [] -> is_some (uhost u) = true ->
+  norm_tail (s_r (run true (init_sst (repr_of u) file) [OStartPart P_PORT; OAppend (dec_str p); OSavePart; OSetFlag 64])) =
+  repr_of (set_port u (Some p)).
+Proof. exact port_setter_repr. Qed.
+
+Theorem C03_username_setter_repr : forall u file v,
+  scheme u <> [] -> is_some (uhost u) = true -> nth P_HOST (pieces u) [] <> [] ->
+  s_r (run true (init_sst (repr_of u) file) [OStartPart P_USERNAME; OAppend v; OSavePart]) = repr_of (set_username u v).
+Proof. exact username_setter_repr. Qed.
+
+Theorem C03_password_setter_repr : forall u file v,
+  scheme u <> [] -> is_some (uhost u) = true -> nth P_HOST (pieces u) [] <> [] ->
+  s_r (run true (init_sst (repr_of u) file) [OStartPart P_PASSWORD; OAppend v; OSavePart]) = repr_of (set_password u v).
+Proof. exact password_setter_repr. Qed.
+
+(* non-vacuity of the record-level premises, and the theorems evaluated on http://h/p: username "u", then hash "f" *)
+Example C03_record_example :
+  let u := mkurl (lit "http") [] [] (Some (HDomain (lit "h"))) None (PList [lit "p"]) None None in
+  scheme u <> [] /\ is_some (uhost u) = true /\ nth P_HOST (pieces u) [] <> [] /\
+  r_norm (s_r (run true (init_sst (repr_of u) false) [OStartPart P_USERNAME; OAppend (lit "u"); OSavePart])) = lit "http://u@h/p" /\
+  r_norm (s_r (run true (init_sst (repr_of u) false) [OStartPart P_FRAGMENT; OAppend (lit "f"); OSavePart; OSetFlag 1024])) = lit "http://h/p#f".
+Proof. cbv zeta. repeat split; try discriminate; vm_compute; reflexivity. Qed.
+
 (* non-vacuity: the pieces of http://h/p?q#f are a well-formed piece list, and the representation the
    real object has (4,7,7,7,7,8,8,8,10,12,14) is its [conc] *)
 Example C03_pieces_example :
@@ -70,4 +140,14 @@ Print Assumptions C03_replace_part.
 Print Assumptions C03_write_last_part.
 Print Assumptions C03_setter_splice_port_query.
 Print Assumptions C03_setter_clear_part.
+Print Assumptions C03_setter_write_port_query_fragment.
+Print Assumptions C03_setter_port_query_fragment.
+Print Assumptions C03_setter_username_pieces.
+Print Assumptions C03_setter_password_pieces.
+Print Assumptions C03_hash_setter_repr.
+Print Assumptions C03_search_setter_repr.
+Print Assumptions C03_port_setter_repr.
+Print Assumptions C03_username_setter_repr.
+Print Assumptions C03_password_setter_repr.
+Print Assumptions C03_record_example.
 Print Assumptions C03_pieces_example.
